@@ -552,6 +552,10 @@ func (w *World) tagContext(op Op) {
 			if app := w.findApp(spec.App); app != nil && (app.IsFailing() || app.IsFailed()) {
 				w.Mem["ctx:ask-on-failing-app"] = "1"
 			}
+			if app := w.findApp(spec.App); app != nil && app.IsCompleting() && len(app.GetAllAllocations()) == 0 {
+				// an application that emptied before it ever ran restarts from Completing: Completing -> Running without the admission gate
+				w.Mem["ctx:restart-from-completing-never-ran"] = "1"
+			}
 		}
 	}
 }
